@@ -201,7 +201,7 @@ func cmdCheck(args []string) {
 			continue
 		}
 		funcs = append(funcs, shortKey(k))
-		vs := solveAll(res.Ctx, res.Ctx.obls, work, timeout, 6, seed)
+		vs := solveAll(res.Ctx, res.Ctx.obls, work, funcTimeout(eng, k, timeout), 8, seed)
 		for _, v := range vs {
 			total++
 			solverMs += v.Millis
@@ -400,4 +400,17 @@ func runReplay(pc *PropConfig, id, replayFile string) (string, bool) {
 		s = s[:6000]
 	}
 	return s, strings.Contains(s, "REPLAY: reproduced")
+}
+
+// funcTimeout: a contract may ask for a larger per-obligation budget (`opt timeout=<ms>`) when its
+// obligations are known to need it (byte-level layouts); it never lowers the tier's budget.
+func funcTimeout(eng *Engine, key string, tier int) int {
+	if ct := eng.contracts[key]; ct != nil {
+		if v := ct.Opts["timeout"]; v != "" {
+			if n, err := strconv.Atoi(v); err == nil && n > tier {
+				return n
+			}
+		}
+	}
+	return tier
 }
